@@ -241,7 +241,12 @@ def build_case(case):
                 elif how == 'collateral':
                     b.collaterals.append(u)
                 elif how == 'ref':                         # a reference input nothing in the transaction needs
+                    twice = lit.get('twice')               # the same UTxO also named by its bare TransactionInput
+                    if twice == 'bare-first':
+                        b.reference_inputs.add(u.input)
                     b.reference_inputs.add(u)
+                    if twice == 'bare-last':
+                        b.reference_inputs.add(u.input)
                 elif how == 'potential':
                     b.potential_inputs.append(u)
                 elif how in ('pool', 'refonly'):
